@@ -276,6 +276,20 @@ func runC20(c *Ctx) {
 			}
 			r.GuardSite("C20-T3", u, s, c.W.Parse("!p3 && p1.Type&common.RangeLOpen > 0 && bytes.Compare(it.Iterator.RefKey(), p1.Min) <= 0"), "forward: skip the key equal to Min only when left-open")
 		}
+		// skipping Offset elements must not count against Count: the skip steps the underlying iterator, and the limit
+		// counter is written by the wrapper's Next only
+		nRaw := 0
+		for _, s := range u.Sites {
+			if s.Kind == flow.SCall && (an.CalleeName(s) == "engine.(*RangeLimitedIterator).Next" || an.CalleeName(s) == "engine.(*RangeLimitedIterator).Prev") {
+				r.Bad("C20-T3", u.Name+": the offset skip steps the underlying iterator, not the counting wrapper", u.Pos(s.Pos), "the wrapper's Next counts towards Count: with Offset > Count the skip stops early")
+			}
+			if s.Kind == flow.SCall && (an.CalleeName(s) == "engine.Iterator.Next" || an.CalleeName(s) == "engine.Iterator.Prev") {
+				if flow.Implies(u.SitePC(s), c.W.Parse("i < p2.Offset")).Holds {
+					nRaw++
+				}
+			}
+		}
+		r.Check("C20-T3", u.Name+": the offset skip has a forward and a backward raw step", "", nRaw == 2, fmt.Sprintf("%d raw steps in the offset loop", nRaw))
 		// the reverse fallback (SeekToFirst after an empty SeekForPrev) must not leave the iterator on a key beyond Max
 		for _, f := range u.Match(an.Call("engine.Iterator.SeekToFirst")) {
 			if !flow.Implies(u.SitePC(f), c.W.Parse("p3")).Holds {
@@ -439,4 +453,21 @@ func c20T6(c *Ctx) {
 		}
 	}
 	r.Min("C20-T6", n, 4, "SeekForPrev implementations in package engine")
+}
+
+func init() {
+	old := registry["C20"].Run
+	registry["C20"].Run = func(c *Ctx) { old(c); c20StepWriters(c) }
+}
+
+// who may write the limit counter
+func c20StepWriters(c *Ctx) {
+	r := c.R
+	n := 0
+	for _, sw := range c.W.AllSites(an.Store("engine.RangeLimitedIterator.step"), "step", []string{"engine"}) {
+		n++
+		ok := sw.U.Name == "engine.(*RangeLimitedIterator).Next" && sw.S.Tok.String() == "++"
+		r.Check("C20-T3", sw.U.Name+": the limit counter is advanced by the wrapper's Next only", sw.U.Pos(sw.S.Pos), ok, "store "+sw.S.Tok.String()+" in "+sw.U.Name)
+	}
+	r.Min("C20-T3", n, 1, "stores to RangeLimitedIterator.step")
 }
